@@ -22,6 +22,7 @@ from aws_durable_execution_sdk_python.concurrency.models import (
 )
 from aws_durable_execution_sdk_python.config import ChildConfig
 from aws_durable_execution_sdk_python.exceptions import (
+    CallableRuntimeError,
     OrphanedChildException,
     SuspendExecution,
     TimedSuspendExecution,
@@ -390,11 +391,21 @@ class ConcurrentExecutor(ABC, Generic[CallableType, ResultType]):
                         )
                     )
                 case BranchStatus.FAILED:
+                    branch_error = executable.error
                     batch_items.append(
                         BatchItem(
                             executable.index,
                             BatchItemStatus.FAILED,
-                            error=ErrorObject.from_exception(executable.error),
+                            # the branch's child handler raises the recorded error as a
+                            # CallableRuntimeError: report that recorded error, as replay() does
+                            error=ErrorObject(
+                                message=branch_error.message,
+                                type=branch_error.error_type,
+                                data=branch_error.data,
+                                stack_trace=branch_error.stack_trace,
+                            )
+                            if isinstance(branch_error, CallableRuntimeError)
+                            else ErrorObject.from_exception(branch_error),
                         )
                     )
                 case (
